@@ -1,5 +1,5 @@
 """C16 — evaluating an Ink function from the host does not disturb the story."""
-import json, re
+import copy, json, re
 import vlib, engine
 from props import hist
 
@@ -14,6 +14,13 @@ ASSUMPTIONS = [
     "globals only — the same call is compared across all boundaries with equal globals (call-stack shape probed with "
     "STACKINFO: inside forked / nested threads, tunnels, functions in progress, at choice points) and with a fresh "
     "story whose globals were set to the same values; this is what judges evaluations that FAIL",
+    "class covered since the seeded change C16b/eval_result_pop: the story paused with operands PARKED on its evaluation "
+    "stack (between lines printed by a function called from inside an expression / condition / argument list, also "
+    "inside tunnels, threads and choice bodies: generated programs get such statements inserted at random reachable "
+    "places) x host-evaluated functions of every shape (falling off their end with and without text, bare `~ return`, "
+    "returning on one path only, returning strings / lists / divert targets, calling void functions) x calls with "
+    "surplus arguments; the whole save (evaluation stack, call stack, output stream) is compared right before / right "
+    "after the calls, not only at the end of the history",
 ]
 
 
@@ -40,7 +47,8 @@ def pure_functions(p):
     names = set(blocks)
     pure = {}
     for f, body in blocks.items():
-        txt = "\n".join(body)
+        # `~ return -> knot` yields a divert-target VALUE: neither a divert nor a read count
+        txt = re.sub(r"~\s*return\s*->\s*[A-Za-z_][A-Za-z0-9_.]*", "~ return 0", "\n".join(body))
         bad = f in ext
         for g in p["globals"]:
             if re.search(r"~\s*" + re.escape(g) + r"\s*(=|\+=|-=|\+\+|--)", txt):
@@ -147,16 +155,230 @@ T line.
     """<- side
 Main line.
 -> END
-== side
+=== side ===
 Side one.
 Side two.
 -> DONE
-== function greet()
+=== function greet() ===
 Hi there.
-== function five()
+=== function five() ===
 ~ return 5
 """,
+    # minimised form of the seeded change C16b/eval_result_pop (regression): the story pauses inside roll() with the
+    # left operand parked on the evaluation stack; describe() leaves nothing on it
+    """VAR total = 0
+Start.
+~ total = 10 + roll()
+Total is {total}.
+-> END
+=== function roll() ===
+You shake the cup.
+The die shows a five.
+~ return 5
+=== function describe() ===
+A plain wooden die.
+""",
+    # operands parked mid-thread, mid-tunnel, in a condition, in an argument list, in a string concatenation and in
+    # choice text x functions returning nothing / void / a list / a string / a divert target / on one path only
+    """LIST kit = (rope), lamp, map
+VAR total = 0
+-> start
+=== start ===
+<- side
+Start.
+-> tun ->
+~ total = 10 + roll()
+Total {total}.
+{pair(1, roll())}
+{ (3 < roll()):
+  Big.
+}
+* [go "{label(2)}"] -> cave
+=== side ===
+Side {2 * say(4)} done.
+Side end.
+-> DONE
+=== tun ===
+Tunnel {"x" + say(1)}.
+~ temp t = 7 - roll()
+Tunnel end {t}.
+->->
+=== cave ===
+Cave {1 + (2 * say(roll()))}.
+-> END
+=== function roll() ===
+You shake the cup.
+The die shows a five.
+~ return 5
+=== function say(a) ===
+saying {a}
+~ return a
+=== function pair(a, b) ===
+~ return a + b
+=== function label(a) ===
+lab {a}
+~ return a
+=== function describe() ===
+A plain wooden die.
+=== function quiet() ===
+~ temp z = 0
+=== function bare() ===
+Bare.
+~ return
+=== function items() ===
+~ return kit + lamp
+=== function show() ===
+{kit}
+=== function whereto() ===
+~ return -> cave
+=== function name(a) ===
+~ return "n" + a
+=== function maybe(a) ===
+{ a > 2:
+  ~ return a
+}
+small {a}
+=== function relay() ===
+~ describe()
+~ temp r = pair(1, 2)
+passed on {r}
+""",
 ]
+
+# ---------------------------------------------------------------------------------------------------------
+# generated programs of the "parked operands" class.  A generated program (gen_ink AST) gets
+#   * 2..5 statements inserted at random reachable places of the story proper (top, knots, stitches, tunnels,
+#     threads, choice bodies, if branches) that call a text-printing function from INSIDE an expression: the
+#     story then pauses between the lines of that function with the other operands of the expression parked
+#     on its evaluation stack;
+#   * a random selection of host-side function shapes appended ({w1} {w2}: random words, {k}: a knot).
+HOST_FUNCS = {
+    "hq_void":     "=== function hq_void() ===\n{w1}.\n",                               # text only, falls off its end
+    "hq_void2":    "=== function hq_void2(a) ===\n{w1} {{a}}.\n{w2}.\n",                # two lines, no return
+    "hq_quiet":    "=== function hq_quiet() ===\n~ temp t = 1\n",                       # no text, no return
+    "hq_bare":     "=== function hq_bare() ===\n{w1}.\n~ return\n",                     # bare return
+    "hq_maybe":    "=== function hq_maybe(a) ===\n{{ a > 2:\n  ~ return a * 2\n}}\n{w1} {{a}}.\n",   # one path returns
+    "hq_str":      "=== function hq_str(a) ===\n~ return \"{w1} \" + a\n",
+    "hq_list":     "=== function hq_list() ===\n~ return hq_l + hq_b\n",
+    "hq_listv":    "=== function hq_listv() ===\n{{hq_l}}\n",                           # prints a list, no return
+    "hq_dt":       "=== function hq_dt() ===\n~ return -> {k}\n",
+    "hq_callvoid": "=== function hq_callvoid() ===\n~ hq_void()\n~ temp r = hq_two(1, 2)\n{w1} {{r}}.\n",
+    "hq_park":     "=== function hq_park() ===\n{w1}.\n{w2}.\n~ return 5\n",            # operand of the story: 2 lines
+    "hq_say":      "=== function hq_say(a) ===\n{w1} {{a}}.\n~ return a\n",
+    "hq_two":      "=== function hq_two(a, b) ===\n~ return a + b\n",
+}
+HOST_DEPS = {"hq_callvoid": ["hq_void", "hq_two"]}
+HOST_NEED_LIST = {"hq_list", "hq_listv"}
+HOST_NOTHING_LEFT = ["hq_void", "hq_void2", "hq_quiet", "hq_listv", "hq_callvoid"]   # leave the stack as they found it
+HOST_LIST_DECL = "LIST hq_l = (hq_a), hq_b, hq_c\n"
+PARK_WEIGHTS = dict(func_call=1.6, inl_call=0.8, eval_call=0.8, func_text=0.9, pure_func=0.3, func_stmts=(1, 3))
+
+
+def _story_blocks(ast):
+    """blocks of the story proper (not of functions) into which a statement can be inserted"""
+    out = []
+
+    def rec(b):
+        out.append(b)
+        for s in b:
+            if s[0] == "choices":
+                for c in s[1]:
+                    rec(c["body"])
+            elif s[0] == "if":
+                for _, bb in s[1]:
+                    rec(bb)
+                if s[2]:
+                    rec(s[2])
+    rec(ast["top"])
+    for k in ast["knots"]:
+        if k["function"]:
+            continue
+        rec(k["body"])
+        for st in k["stitches"]:
+            rec(st["body"])
+    return out
+
+
+def _slots(b):
+    """indices at which a statement inserted into block b is reached whenever its predecessor is"""
+    ok = []
+    for i in range(len(b) + 1):
+        if i > 0:
+            p = b[i - 1]
+            if p[0] in ("divert", "choices", "return") or (p[0] == "line" and p[3] is not None):
+                continue
+        ok.append(i)
+        if i < len(b) and (b[i][0] == "divert" or (b[i][0] == "line" and b[i][3] is not None)):
+            break
+    return ok
+
+
+def parking_stmt(rng, ast, n, words):
+    """a statement that calls a text-printing function while other operands of the enclosing expression
+    (ints, strings, one or two of them) are parked on the evaluation stack"""
+    gints = [g[0] for g in ast["globals"] if g[1][0] == "i"]
+    w = lambda: rng.choice(words)
+    park = ["call", "hq_park", []]
+    say = lambda e: ["call", "hq_say", [e]]
+    lit = lambda: ["i", rng.choice([1, 2, 3, 7, 10])]
+    k = rng.choice(["line", "call2", "cond", "temp", "strcat", "deep"] + (["assign"] * 2 if gints else []))
+    if k == "assign":
+        return ["assign", rng.choice(gints), ["bin", rng.choice("+-*"), lit(), rng.choice([park, say(lit())])]]
+    if k == "line":
+        return ["line", [["t", w() + " "], ["e", ["bin", rng.choice("+*"), lit(), rng.choice([park, say(lit())])]],
+                         ["t", " " + w()]], [], None]
+    if k == "call2":
+        return ["eval", ["call", "hq_two", [lit(), park]]]
+    if k == "cond":
+        return ["if", [[["bin", rng.choice(["<", ">", "=="]), lit(), park],
+                        [["line", [["t", w() + " " + w()]], [], None]]]], None]
+    if k == "temp":
+        return ["temp", "hq_t%d" % n, ["bin", "-", lit(), say(["v", rng.choice(gints)] if gints else lit())]]
+    if k == "strcat":
+        return ["line", [["t", w() + " "], ["e", ["bin", "+", ["s", w() + " "], say(lit())]]], [], None]
+    return ["line", [["t", w() + " "],
+                     ["e", ["bin", "+", lit(), ["bin", "*", lit(), rng.choice([park, say(park)])]]]], [], None]
+
+
+def park_program(rng, gen_ink, **weights):
+    src, ast = gen_ink.gen_program(rng, **weights)
+    ast = copy.deepcopy(ast)
+    blocks = _story_blocks(ast)
+    early = [b for b in [ast["top"]] + [k["body"] for k in ast["knots"][:1] if not k["function"]] if _slots(b)]
+    for n in range(rng.randint(2, 5)):
+        b = rng.choice(early) if (n == 0 and early) else rng.choice(blocks)
+        sl = _slots(b)
+        if sl:
+            b.insert(rng.choice(sl), parking_stmt(rng, ast, n, gen_ink.WORDS))
+    src = gen_ink.print_program(ast)
+    names = ["hq_park", "hq_say", "hq_two"]
+    opt = [f for f in HOST_FUNCS if f not in names]
+    rng.shuffle(opt)
+    for f in opt[: rng.randint(4, 7)]:
+        for g in [f] + HOST_DEPS.get(f, []):
+            if g not in names:
+                names.append(g)
+    if not set(names) & set(HOST_NOTHING_LEFT):
+        names.append(rng.choice(HOST_NOTHING_LEFT[:3]))
+    knots = [k["name"] for k in ast["knots"] if not k["function"]]
+    two = lambda: " ".join(rng.choice(gen_ink.WORDS) for _ in range(2))
+    for f in sorted(names, key=list(HOST_FUNCS).index):
+        src += HOST_FUNCS[f].format(w1=two(), w2=two(), k=rng.choice(knots))
+    if set(names) & HOST_NEED_LIST:
+        src = HOST_LIST_DECL + src
+    return src
+
+
+def park_programs(ctx, n):
+    g = hist.try_gen_ink()
+    out = []
+    for i in range(n if g is not None else 0):
+        try:
+            src = park_program(ctx.rng, g, **dict(GEN_WEIGHTS, **PARK_WEIGHTS))
+        except Exception:
+            break
+        out.append(dict(id=f"park{i}", ink=src, **hist.analyse(src)))
+    return out
 
 
 def global_names(p):
@@ -184,6 +406,15 @@ def strip_fn_counts(save, fns):
     for fn in fns:
         save = re.sub(r'"' + re.escape(fn) + r'(\.[^"]*)?":-?\d+,?', "", save)
     return save
+
+
+def save_part(save, field):
+    """one top-level field of a SHOWSAVE rendering `ok({...})` (None: unreadable)"""
+    try:
+        return json.dumps(json.loads(save[3:-1]).get(field), sort_keys=True)
+    except Exception:
+        m = re.search(r'"' + re.escape(field) + r'":(\[.*?\]),"flows"', save)
+        return m.group(1) if m else None
 
 
 def probe_case(p, st, path, ops, gvars):
@@ -218,6 +449,8 @@ def probe_read(res, n_setup, n_ops, n_vars):
             flags.add("nested")        # a tunnel or a function of the story is in progress
         if int(m.group(3)) > 0:
             flags.add("choices")
+        if int(m.group(4)) > 0:
+            flags.add("operands")      # values of the story parked on the evaluation stack
         snap = tuple(hist.split_line(L[at + 1 + j])[1] for j in range(n_vars))
         out[k] = (frozenset(flags), snap)
     return out
@@ -245,6 +478,7 @@ def run(ctx):
     nprog = 12 if ctx.quick() else 80
     progs = hist.programs(ctx, nprog, **GEN_WEIGHTS)
     progs += [dict(id=f"c16extra{i}", ink=src, **hist.analyse(src)) for i, src in enumerate(EXTRA)]
+    progs += park_programs(ctx, 8 if ctx.quick() else 60)
     progs = [p for p in progs if pure_functions(p)]
     trees = hist.explore_tree(exe, progs, depth=3, max_paths=20)
     # ---- histories and their probes (call-stack shape + globals at every boundary)
@@ -258,7 +492,8 @@ def run(ctx):
             hs.append(dict(p=p, st=st, path=path, ops=ops, gvars=global_names(p)))
     pres = vlib.run_inkdrive([probe_case(h["p"], h["st"], h["path"], h["ops"], h["gvars"]) for h in hs], exe)
     cases, meta, by_id = [], {}, {}
-    shape_count = dict(thread=0, nested=0, choices=0, plain=0, unknown=0)
+    shape_count = dict(thread=0, nested=0, choices=0, operands=0, plain=0, unknown=0)
+    n_surplus = 0
     refs = {}
     for h, prb in zip(hs, pres):
         p, st, path, ops = h["p"], h["st"], h["path"], h["ops"]
@@ -268,26 +503,40 @@ def run(ctx):
         meta[bid] = dict(kind="base")
         positions = list(range(len(ops) + 1))
         if ctx.quick() and len(positions) > 6:
-            # the start, then boundaries with a non-trivial call stack (inside a thread / tunnel / function), then any
+            # the start, then boundaries with parked operands, then boundaries with a non-trivial call stack (inside
+            # a thread / tunnel / function), then any
             special = [k for k in positions if info[k] and (info[k][0] & {"thread", "nested"})]
             ctx.rng.shuffle(special)
-            keep = [0] + [k for k in special if k != 0][:3]
+            parked = [k for k in positions if info[k] and "operands" in info[k][0]]
+            ctx.rng.shuffle(parked)
+            keep = [0] + [k for k in parked if k != 0][:2]
+            keep += [k for k in special if k not in keep][:5 - len(keep)]
             rest = [k for k in positions if k not in keep]
             keep += ctx.rng.sample(rest, min(len(rest), 6 - len(keep)))
             positions = sorted(keep)
         fargs = {f: [ctx.rng.choice(ARGS[:3] if n else ARGS) for _ in range(n)] for f, n in pure_functions(p)}
+        # the same call with surplus arguments (the runtime cleans them off the evaluation stack afterwards)
+        surplus = {f: a + [ctx.rng.choice(ARGS) for _ in range(ctx.rng.randint(1, 2))] for f, a in fargs.items()}
         for k in positions:
             flags = info[k][0] if info[k] else None
             for fl in (flags if flags else (["unknown"] if flags is None else ["plain"])):
                 shape_count[fl] += 1
-            for f, n in pure_functions(p):
+            variants = [(f, fargs[f], "") for f, n in pure_functions(p)]
+            # surplus arguments: where operands are parked always, elsewhere for one function per boundary
+            sur = [f for f, n in pure_functions(p)]
+            if not (flags and "operands" in flags):
+                sur = [ctx.rng.choice(sur)]
+            variants += [(f, surplus[f], "+") for f in sur]
+            n_surplus += len(sur)
+            for f, args, mark in variants:
                 # the same arguments at every boundary of the history, so that results are comparable
-                args = fargs[f]
                 call = ["EVAL", f, args]
-                cid = f"{p['id']}|{path}|{k}|{f}"
+                cid = f"{p['id']}|{path}|{k}|{f}{mark}"
+                # the save right before and right after the two calls, and at the end of the history
                 cases.append(dict(id=cid, ink=p["ink"], seed=42, fuel=30000,
-                                  script=st + ops[:k] + [call, call] + ops[k:] + [["SHOWSAVE"]]))
+                                  script=st + ops[:k] + [["SHOWSAVE"], call, call, ["SHOWSAVE"]] + ops[k:] + [["SHOWSAVE"]]))
                 meta[cid] = dict(kind="inj", base=bid, k=k, fn=f, n_setup=len(st), prog=p, flags=flags,
+                                 mscript=st + ops[:k] + [call, call] + ops[k:],
                                  group=(p["id"], json.dumps(st), f, json.dumps(args), info[k][1]) if info[k] else None)
                 if info[k]:
                     # reference: the same call on a FRESH story whose globals were set to the same values
@@ -325,12 +574,15 @@ def run(ctx):
             continue
         case = by_id[cid]
         bl, il = b["lines"], r["lines"]
-        if r.get("crash") is not None or len(il) != len(bl) + 2:
+        if r.get("crash") is not None or len(il) != len(bl) + 4:
             fails.append(dict(key="crash", case=case)); continue
         at = 1 + m["n_setup"] + m["k"]
         _, _, prev_sum = hist.split_line(bl[at - 1])
-        _, r1, s1 = hist.split_line(il[at])
-        _, r2, s2 = hist.split_line(il[at + 1])
+        _, save0, _ = hist.split_line(il[at])
+        _, r1, s1 = hist.split_line(il[at + 1])
+        _, r2, s2 = hist.split_line(il[at + 2])
+        _, save1, _ = hist.split_line(il[at + 3])
+        closure = call_closure(m["prog"], m["fn"])
         n_checked += 1
         if m["group"] is not None:
             groups.setdefault(m["group"], []).append((r1, cid))
@@ -345,16 +597,22 @@ def run(ctx):
             bad = "result-not-repeatable"
         elif hist.strip_events(s1) != hist.strip_events(prev_sum) or hist.strip_events(s2) != hist.strip_events(prev_sum):
             bad = "pending-text-tags-or-choices-changed"
+        elif save_part(save0, "evalStack") != save_part(save1, "evalStack"):
+            bad = "evaluation-stack-changed"
+        elif strip_fn_counts(save0, closure) != strip_fn_counts(save1, closure):
+            bad = "saved-state-differs-right-after-the-call"
         else:
             for j in range(at, len(bl) - 1):
-                if bl[j] != il[j + 2]:
+                if bl[j] != il[j + 4]:
                     bad = "later-behaviour-differs"; break
-            if not bad and strip_fn_counts(bl[-1], call_closure(m["prog"], m["fn"])) != \
-                    strip_fn_counts(il[-1], call_closure(m["prog"], m["fn"])):
+            if not bad and strip_fn_counts(bl[-1], closure) != strip_fn_counts(il[-1], closure):
                 bad = "saved-state-differs"
         if bad:
-            fails.append(dict(key=f"{bad}", case=case, function=m["fn"], injected_at=m["k"],
-                              eval_lines=il[at:at + 2], before=bl[at - 1]))
+            fails.append(dict(key=f"{bad}", case=case, function=m["fn"], arguments=(il[at + 1].split(" => ")[0]),
+                              injected_at=m["k"], call_stack_shape=sorted(m["flags"] or []),
+                              eval_lines=il[at + 1:at + 3], before=bl[at - 1],
+                              eval_stack_before=save_part(save0, "evalStack"),
+                              eval_stack_after=save_part(save1, "evalStack")))
     # ---- a pure function's value and text depend on its arguments and the globals only: the same call with the
     # same globals gives the same result (or the same refusal) at every boundary of every history and on a
     # fresh story.  This is what judges an evaluation that FAILS: it must fail everywhere.
@@ -385,21 +643,29 @@ def run(ctx):
     ctx.rng.shuffle(inj)
     # the correspondence sample: boundaries with a non-trivial call stack first
     nm = 80 if ctx.quick() else 1000
-    special = [c for c in inj if meta[c["id"]]["flags"] and (meta[c["id"]]["flags"] & {"thread", "nested"})]
-    sample = special[: nm // 2]
+    parked = [c for c in inj if meta[c["id"]]["flags"] and "operands" in meta[c["id"]]["flags"]]
+    sample = parked[: nm // 3]
+    special = [c for c in inj if meta[c["id"]]["flags"] and (meta[c["id"]]["flags"] & {"thread", "nested"})
+               and c not in sample]
+    sample += special[: nm // 3]
     sample += [c for c in inj if c not in sample][: nm - len(sample)]
-    mcases = [dict(c, script=c["script"][:-1], id="m:" + c["id"]) for c in sample]
+    mcases = [dict(c, script=meta[c["id"]]["mscript"], id="m:" + c["id"]) for c in sample]
     cres = engine.compare(mcases, exe, sw)
     mism = [r for r in cres if r["status"] in ("mismatch", "model-error")]
     agree = sum(1 for r in cres if r["status"] == "agree")
     ctx.coverage.update(dict(
         evaluations=len(cases), distinct_nontrivial=n_checked,
         rule="histories along explored paths x every boundary (quick: the start, up to 3 boundaries inside a thread / "
-             "tunnel / function, random others) x each syntactically pure function (twice in a row); "
+             "tunnel / function, random others; since C16b: up to 2 boundaries with parked operands first) x each "
+             "syntactically pure function (twice in a row; also with 1-2 surplus arguments); "
              "non-trivial = the evaluation ran and was compared (lock-step when it succeeded, position groups always)",
         samples=[cases[1]["script"] if len(cases) > 1 else []],
         boundaries_by_call_stack_shape=shape_count, position_groups_compared=n_groups,
         evaluations_in_position_groups=n_cmp, fresh_story_references=sum(1 for m in meta.values() if m["kind"] == "ref"),
+        evaluations_with_surplus_arguments=n_surplus,
+        park_programs=sum(1 for p in progs if p["id"].startswith("park")),
+        correspondence_cases_with_parked_operands=sum(
+            1 for c in sample if meta[c["id"]]["flags"] and "operands" in meta[c["id"]]["flags"]),
         correspondence_cases_inside_thread_or_nested=sum(
             1 for c in sample if meta[c["id"]]["flags"] and (meta[c["id"]]["flags"] & {"thread", "nested"})),
         traces_validated_against_impl=agree, correspondence_mismatches=len(mism), programs=len(progs)))
